@@ -78,7 +78,8 @@ class OrientedLine:
 
   @line.setter
   def line(self, line):
-    if self.__editable:
+    if self.__editable and \
+        self.__dict__.get("_OrientedLine__line_editable", True):
       self.__line = line
     else:
       raise gfapy.RuntimeError(
@@ -167,6 +168,20 @@ class OrientedLine:
 
   def _unblock(self):
     self.__editable = True
+
+  def _set_line(self, line):
+    # (used by the library to keep the references of connected lines
+    # up-to-date)
+    self.__line = line
+
+  def _block_line(self):
+    # the line of a reference of a connected line is renamed and removed
+    # along with the referenced line; the Gfa finds a fragment by the
+    # line of its external reference
+    self.__line_editable = False
+
+  def _unblock_line(self):
+    self.__line_editable = True
 
   def _block_orient(self):
     # the orientation of a reference of a connected line decides where the
